@@ -114,8 +114,9 @@ def bfs(harness_cls, hargs=(), *, depth, procs=16, max_states=None, time_budget=
                 frontier.append((snap, hist))
         res.level_sizes.append(len(frontier))
         d = 0
+        t1 = time.time()   # the budget covers the exploration, not the (mandatory, single-process) construction of the initial states
         while frontier and d < depth:
-            if time_budget is not None and time.time() - t0 > time_budget:
+            if time_budget is not None and d > 0 and time.time() - t1 > time_budget:
                 res.capped = True
                 break
             n = max(1, min(len(frontier), procs * 16))
@@ -123,7 +124,7 @@ def bfs(harness_cls, hargs=(), *, depth, procs=16, max_states=None, time_budget=
             nxt = []
             aborted = False
             for out, ntrans, cov in pool.imap_unordered(_expand, chunks):
-                if time_budget is not None and time.time() - t0 > time_budget * 1.5:
+                if time_budget is not None and d > 0 and time.time() - t1 > time_budget * 1.5:
                     # a level that runs far past the budget is abandoned: what it found so far is kept, the level does not count
                     aborted = True
                     stop.value = 1   # workers skip the rest of their chunks; the iterator drains without killing processes
